@@ -370,12 +370,16 @@ let floor_log_capped (a : int) (c : int) (n : int) : int =
   t.nvals.(n)
 
 (* the depth limit for B lines: limit_capped of the model's constants *)
+let limit_checked : (int * int, unit) Hashtbl.t = Hashtbl.create 64
 let limit_big (b : M.z) (n : M.z) : M.z =
   if M.lim_degenerate b then M.Z.add n (zi 1) else
   let ni = int_of_z n in
   if ni < 1 then M.limit_capped b n else begin
     let v = floor_log_capped (int_of_z M.fracLimit) (int_of_z (M.lim_num b)) ni in
-    if ni <= 48 && int_of_z (M.limit_capped b n) <> v then failwith "native limit table differs from limit_capped";
+    if ni <= 48 && not (Hashtbl.mem limit_checked (int_of_z b, ni)) then begin
+      Hashtbl.replace limit_checked (int_of_z b, ni) ();
+      if int_of_z (M.limit_capped b n) <> v then failwith "native limit table differs from limit_capped"
+    end;
     zi v
   end
 
